@@ -98,6 +98,26 @@ pub fn assignments(sizes: &[usize], k: usize) -> Vec<Assign> {
     out
 }
 
+/// assignments outside the product enumeration: the further histories of the Connector / of the thread (modes 5..9 of
+/// ConnCfg::earlier_connections — minimal re-configurations, an earlier attempt that the client itself gave up because a
+/// credential or the client name was too long), alone and combined with each alternative of the dimensions that change
+/// what the client sends first (NLA, restricted admin, blank credentials, auto logon, hash, SSL selected, re-activations)
+pub fn history_assignments() -> Vec<Assign> {
+    let n = dim_sizes().len();
+    let mut out = vec![];
+    for mode in 5..=11usize {
+        let mut a = vec![0usize; n];
+        a[31] = mode;
+        out.push(a.clone());
+        for d in [0usize, 1, 2, 3, 4, 9, 20] {
+            let mut b = a.clone();
+            b[d] = 1;
+            out.push(b);
+        }
+    }
+    out
+}
+
 pub fn describe_assign(a: &Assign) -> Value {
     let nd: Vec<String> = a.iter().enumerate().filter(|(_, v)| **v != 0).map(|(i, v)| format!("{}={}", DIM_NAMES[i], v)).collect();
     let (c, p) = build(a);
@@ -125,6 +145,7 @@ impl Prop for C03 {
     fn prepare(&mut self, tier: Tier) -> Result<(), String> {
         self.bound = if tier == Tier::Quick { 3 } else { 4 };
         self.cases = assignments(&dim_sizes(), self.bound);
+        self.cases.extend(history_assignments());
         Ok(())
     }
     fn n_cases(&self) -> u64 {
@@ -136,7 +157,7 @@ impl Prop for C03 {
         d
     }
     fn rule(&self) -> String {
-        format!("cases = (connector configuration, conforming-server parameters) over 34 dimensions ({} alternatives in total): NLA, restricted admin, blank credentials, auto logon, password|hash, 9 client names, 4 screen sizes, 3 layouts, 3 credential sets, SSL although NLA offered, 6 user ids (1001..65535), 4 share ids, 5 versions, optional SC_CORE fields, 6 block orders, unknown block, SC_NET padding, 5 licence variants, 4 capability lists (incl. the Windows capture, unknown and empty sets), 3 source-descriptor lengths, 0, 1, 2 or 4 reactivations, fresh or reused share id on reactivation, licence security-header flags 0x0080 / 0x0280, a Set Error Info (ERRINFO_NONE) PDU before each of the four server finalization PDUs, send-data indications at top / high / medium / low priority, BER lengths of the MCS connect response in minimal and 1..3-byte long forms, MaxLen fields of the NTLM CHALLENGE equal to Len / 0 / 0xFFFF, NTLM CHALLENGE flags without NEGOTIATE_VERSION / without NEGOTIATE_TARGET_INFO / without both (the message layout follows the flags) / without NEGOTIATE_UNICODE (an OEM session), 4 payload layouts of the CHALLENGE (name then info, info then name, unreferenced bytes after / before the fields), RDP_NEG_RSP flags 0x00 / 0x01 / 0x0F / 0x1F / 0x04 (every defined bit incl. the reserved one a client should ignore), a Connector object that was used before (one / two earlier attempts for another account with every flag inverted answered with RDP_NEG_FAILURE, one earlier complete connection with that other configuration, one earlier refused attempt with the same configuration) and then re-configured, SC_SECURITY with its optional (zero) length fields, a licensing PDU whose flagsHi holds arbitrary data, 6 orders of the Connector builder calls (flags then credentials, credentials then flags, re-configuration of a connector set up for another account with every flag inverted, flags-credentials-flags, only the calls that differ from the defaults of Connector::new(), the flag setters in the opposite order). Enumerated: the default, every single alternative, every pair, every triple (every quadruple in thorough). Each case is a full real Connector::connect over real TLS + activation + 4 input events + shutdown; oracle: success, mandated message order, no message written while the reply it depends on is unread, identifiers echoed. Non-trivial: at least one non-default coordinate.", dim_sizes().iter().map(|s| s - 1).sum::<usize>())
+        format!("cases = (connector configuration, conforming-server parameters) over 34 dimensions ({} alternatives in total): NLA, restricted admin, blank credentials, auto logon, password|hash, 9 client names, 4 screen sizes, 3 layouts, 3 credential sets, SSL although NLA offered, 6 user ids (1001..65535), 4 share ids, 5 versions, optional SC_CORE fields, 6 block orders, unknown block, SC_NET padding, 5 licence variants, 4 capability lists (incl. the Windows capture, unknown and empty sets), 3 source-descriptor lengths, 0, 1, 2 or 4 reactivations, fresh or reused share id on reactivation, licence security-header flags 0x0080 / 0x0280, a Set Error Info (ERRINFO_NONE) PDU before each of the four server finalization PDUs, send-data indications at top / high / medium / low priority, BER lengths of the MCS connect response in minimal and 1..3-byte long forms, MaxLen fields of the NTLM CHALLENGE equal to Len / 0 / 0xFFFF, NTLM CHALLENGE flags without NEGOTIATE_VERSION / without NEGOTIATE_TARGET_INFO / without both (the message layout follows the flags) / without NEGOTIATE_UNICODE (an OEM session), 4 payload layouts of the CHALLENGE (name then info, info then name, unreferenced bytes after / before the fields), RDP_NEG_RSP flags 0x00 / 0x01 / 0x0F / 0x1F / 0x04 (every defined bit incl. the reserved one a client should ignore), a Connector object that was used before (one / two earlier attempts for another account with every flag inverted answered with RDP_NEG_FAILURE, one earlier complete connection with that other configuration, one earlier refused attempt with the same configuration) and then re-configured; outside the product, alone and with 7 single alternatives each: a complete earlier connection differing only in certificate checking / use_nla / the logon flags after which only those setters are called again, and an earlier attempt that the client gave up by itself because the password (20 000 characters) or the client name (40 000) was too long, SC_SECURITY with its optional (zero) length fields, a licensing PDU whose flagsHi holds arbitrary data, 6 orders of the Connector builder calls (flags then credentials, credentials then flags, re-configuration of a connector set up for another account with every flag inverted, flags-credentials-flags, only the calls that differ from the defaults of Connector::new(), the flag setters in the opposite order). Enumerated: the default, every single alternative, every pair, every triple (every quadruple in thorough). Each case is a full real Connector::connect over real TLS + activation + 4 input events + shutdown; oracle: success, mandated message order, no message written while the reply it depends on is unread, identifiers echoed. Non-trivial: at least one non-default coordinate.", dim_sizes().iter().map(|s| s - 1).sum::<usize>())
     }
     fn assumptions(&self) -> Vec<String> {
         vec![
@@ -187,6 +208,9 @@ enum C04Case {
     /// every emitted length field (PER send-data length, DER TSCredentials lengths, NTLM descriptors, cb* fields)
     /// walks across its 7-bit / 8-bit encoding boundaries
     Len(usize, usize, usize, bool),
+    /// field (1 domain, 2 user, 3 password) = 'x' x lead + one supplementary code point + "tail", auto logon, NLA: a code
+    /// point whose surrogate pair sits on a 256-unit / 512-byte boundary
+    Astral(usize, usize, bool, bool),
 }
 
 pub struct C04 {
@@ -208,6 +232,7 @@ impl Prop for C04 {
     }
     fn prepare(&mut self, tier: Tier) -> Result<(), String> {
         let mut cs: Vec<C04Case> = assignments(&dim_sizes(), if tier == Tier::Quick { 2 } else { 3 }).into_iter().map(C04Case::Assign).collect();
+        cs.extend(history_assignments().into_iter().map(C04Case::Assign));
         for s in string_alphabet() {
             for field in 0..4 {
                 for nla in [true, false] {
@@ -239,6 +264,25 @@ impl Prop for C04 {
             }
             cs.push(C04Case::Len(1, 3, units, false));
         }
+        // account strings with characters that mean something to some layer (user principal names, down-level names,
+        // separators, quotes, control characters), in every field, NLA on and off
+        for s in ["alice@contoso.com", "@", "a@", "@realm", "DOM\\user", "with space", " lead", "trail ", "semi;colon:x", "quote\"'", "%41%00", "tab\there", "{brace}[x]", "a/b", "$MACHINE$", "-dash", "."] {
+            for field in 0..4 {
+                for nla in [true, false] {
+                    cs.push(C04Case::Str(field, s.to_string(), nla));
+                }
+            }
+        }
+        // a supplementary code point around the 256th UTF-16 unit of a credential, with and without auto logon
+        for field in 1..4usize {
+            for lead in [253usize, 254, 255, 256, 257, 510, 511, 512] {
+                for auto_logon in [false, true] {
+                    for nla in [false, true] {
+                        cs.push(C04Case::Astral(field, lead, auto_logon, nla));
+                    }
+                }
+            }
+        }
         let max_units = if tier == Tier::Quick { 140 } else { 300 };
         for ver in [0usize, 1] {
             for field in 1..4 {
@@ -257,6 +301,7 @@ impl Prop for C04 {
     }
     fn describe(&self, idx: u64) -> Value {
         match &self.cases[idx as usize] {
+            C04Case::Astral(f, lead, auto_logon, nla) => json!({"idx": idx, "field": (["client name", "domain", "user", "password"][*f]), "value": format!("'x' x {} + U+1F600 + \"tail\"", lead), "auto_logon": auto_logon, "use_nla": nla}),
             C04Case::Len(ver, f, units, nla) => json!({"idx": idx, "field": (["client name", "domain", "user", "password"][*f]), "value": format!("'x' x {}", units), "server_version_index": ver, "use_nla": nla}),
             C04Case::Assign(a) => {
                 let mut d = describe_assign(a);
@@ -267,7 +312,7 @@ impl Prop for C04 {
         }
     }
     fn rule(&self) -> String {
-        "cases = full conversations (as C03) whose every client message is parsed by the strict reference parsers: TPKT/X.224, BER connect-initial, PER conference-create-request (length = 14 + blocks), CS_CORE/CS_SECURITY/CS_NET block lengths, clientName = 32 bytes holding <=15 UTF-16 units + NUL, info packet cb* fields / terminators / extended info, share control totalLength, share data lengths, confirm-active counts and per-type capability sizes, input PDU numEvents, NTLM NEGOTIATE/AUTHENTICATE descriptor triples, strict DER TSRequest/TSCredentials. Configurations: default, every single alternative and every pair of the 34 C03 dimensions (every triple in thorough), and every string of the Unicode alphabet (class^len for class in {a, é, 日, 😀} x len in {0,1,7,8,15,16,17,31,32,64}, every mixed string of <=3 code points, the boundary code points of every UTF-8/UTF-16 encoding length) as client name, domain, user and password, with NLA on and off; plus client names in which each boundary supplementary code point straddles / ends at the 15-unit cut; user names and passwords of 8000..70000 UTF-16 units (the client-info PDU then exceeds a TPKT frame: well formed or not sent at all); plus the length sweep: domain, user and password of every length 0..140 UTF-16 units (0..300 thorough) against an RDP5 and an RDP4 server (info packet with and without extended info), NLA on and off, so that every emitted length field crosses its 0x7f/0x80 and 0xff/0x100 encoding boundaries. Non-trivial: every case but the default.".into()
+        "cases = full conversations (as C03) whose every client message is parsed by the strict reference parsers: TPKT/X.224, BER connect-initial, PER conference-create-request (length = 14 + blocks), CS_CORE/CS_SECURITY/CS_NET block lengths, clientName = 32 bytes holding <=15 UTF-16 units + NUL, info packet cb* fields / terminators / extended info, share control totalLength, share data lengths, confirm-active counts and per-type capability sizes, input PDU numEvents, NTLM NEGOTIATE/AUTHENTICATE descriptor triples, strict DER TSRequest/TSCredentials. Configurations: default, every single alternative and every pair of the 34 C03 dimensions (every triple in thorough), and every string of the Unicode alphabet (class^len for class in {a, é, 日, 😀} x len in {0,1,7,8,15,16,17,31,32,64}, every mixed string of <=3 code points, the boundary code points of every UTF-8/UTF-16 encoding length) as client name, domain, user and password, with NLA on and off; plus client names in which each boundary supplementary code point straddles / ends at the 15-unit cut; 17 strings with characters that mean something to some layer (user principal names with '@', down-level names with a backslash, spaces, separators, quotes, a tab) in every field; credentials with a supplementary code point around their 256th / 512th UTF-16 unit, with and without auto logon; user names and passwords of 8000..70000 UTF-16 units (the client-info PDU then exceeds a TPKT frame: well formed or not sent at all); plus the length sweep: domain, user and password of every length 0..140 UTF-16 units (0..300 thorough) against an RDP5 and an RDP4 server (info packet with and without extended info), NLA on and off, so that every emitted length field crosses its 0x7f/0x80 and 0xff/0x100 encoding boundaries. Non-trivial: every case but the default.".into()
     }
     fn assumptions(&self) -> Vec<String> {
         vec![
@@ -300,6 +345,20 @@ impl Prop for C04 {
                     _ => c.client.password = s,
                 }
                 (c, p, format!("string-{}", ["name", "domain", "user", "password"][f]))
+            }
+            C04Case::Astral(f, lead, auto_logon, nla) => {
+                let mut c = ConnCfg::default();
+                let mut p = ServerParams::default();
+                c.use_nla = nla;
+                c.client.auto_logon = auto_logon;
+                p.selected = if nla { 2 } else { 1 };
+                let s = format!("{}\u{1F600}tail", "x".repeat(lead));
+                match f {
+                    1 => c.client.domain = s,
+                    2 => c.client.user = s,
+                    _ => c.client.password = s,
+                }
+                (c, p, "astral-at-256".to_string())
             }
             C04Case::Len(ver, f, units, nla) => {
                 let mut c = ConnCfg::default();
@@ -404,7 +463,7 @@ impl Prop for C17 {
                         cs.push((c.clone(), sel, 0xF100_0000 | flags, 0u32));
                     }
                     // the connector object served other connections before (see ConnCfg::earlier_connections)
-                    for earlier in 1..=4u8 {
+                    for earlier in 1..=11u8 {
                         let mut c2 = c.clone();
                         c2.earlier_connections = earlier;
                         cs.push((c2, sel, 0u32, 0u32));
@@ -432,7 +491,7 @@ impl Prop for C17 {
         json!({"idx": idx, "connector": c, "server_selects": s, "server_version_override": (if ver >> 24 == 0xF1 { "none".to_string() } else { format!("{:#x}", ver) }), "negotiation_response_flags": (if ver >> 24 == 0xF1 { format!("{:#x}", ver & 0xFF) } else { "0x0".to_string() }), "challenge_flags_left_out": format!("{:#x}", without)})
     }
     fn rule(&self) -> String {
-        "cases = all 32 combinations of {NLA, restricted admin, blank credentials, auto logon, password|hash} x 6 credential sets incl. each of domain / user / password empty (every alphabet string as password in thorough) x every protocol the server may select among those offered x 6 orders of the Connector builder calls, x server versions 0x00080001 / 5 / C, x CHALLENGE flag sets without SEAL / SIGN / both / 128 / ALWAYS_SIGN / UNICODE (an OEM session) / UNICODE and SEAL / VERSION / TARGET_INFO (the password must not be readable in any CredSSP message, NTLM token fields included), plus servers selecting a protocol that was not offered (incl. HYBRID although NLA is off, and standard RDP security): refused with no CredSSP message, no Client Info and no password anywhere (incl. re-configuring a connector that was set up for another account with every flag inverted); full real connect over real TLS; oracle: decrypted TSCredentials and parsed Client Info match the mode table, the negotiation request announces restricted admin, auto-logon bit iff requested, the password (UTF-8 and UTF-16LE) appears neither on the raw transport nor in any NTLM token, credential-bearing messages only inside TLS. Non-trivial: all. Also every combination under RDP_NEG_RSP flags 0x01 / 0x08 / 0x17 / 0x1F, 6 orders of the builder calls, and a Connector object that served 1-2 refused attempts or a complete connection for another account before being re-configured.".into()
+        "cases = all 32 combinations of {NLA, restricted admin, blank credentials, auto logon, password|hash} x 6 credential sets incl. each of domain / user / password empty (every alphabet string as password in thorough) x every protocol the server may select among those offered x 6 orders of the Connector builder calls, x server versions 0x00080001 / 5 / C, x CHALLENGE flag sets without SEAL / SIGN / both / 128 / ALWAYS_SIGN / UNICODE (an OEM session) / UNICODE and SEAL / VERSION / TARGET_INFO (the password must not be readable in any CredSSP message, NTLM token fields included), plus servers selecting a protocol that was not offered (incl. HYBRID although NLA is off, and standard RDP security): refused with no CredSSP message, no Client Info and no password anywhere (incl. re-configuring a connector that was set up for another account with every flag inverted); full real connect over real TLS; oracle: decrypted TSCredentials and parsed Client Info match the mode table, the negotiation request announces restricted admin, auto-logon bit iff requested, the password (UTF-8 and UTF-16LE) appears neither on the raw transport nor in any NTLM token, credential-bearing messages only inside TLS. Non-trivial: all. Also every combination under RDP_NEG_RSP flags 0x01 / 0x08 / 0x17 / 0x1F, 6 orders of the builder calls, and a Connector object that served 1-2 refused attempts or a complete connection for another account before being re-configured, that completed a connection under a configuration differing in one group of settings after which only those setters were called, that gave up an attempt by itself (over-long password / client name), or whose connect() is simply called again after a refused attempt / a complete connection (11 histories).".into()
     }
     fn assumptions(&self) -> Vec<String> {
         vec!["with a password hash the connector has no clear-text password: both structures then carry an empty password".into()]
